@@ -29,7 +29,7 @@ TECHNIQUE = (
     "combinator x step composition x optimisation direction) with the fitness landscape and all other random answers "
     "explored by E1 under a deviation bound; the real budget is wrapped in a logging proxy with an explicit horizon, and "
     "every check is compared with a reference answer computed from the invocation log; liveness = some explored answer "
-    "sequence reaches a done state"
+    "sequence reaches a done state; steps that evaluate offspring themselves, the budget SimpleGP builds from (target_fitness, max_evaluations), budget and tracker objects that already served a search"
 )
 RULE = (
     "execution = one run of search(); oracle: terminates within the horizon, each budget check answers like the reference, "
